@@ -101,7 +101,8 @@ def add_ids(xml, mode, rng):
             return (f"<{tag} id=''" if n[0] % 2 else f"<{tag} id='au{n[0]}'") + m.group(2)
         i = n[0] if mode != "duplicates" else (n[0] % 3)
         return f"<{tag} id='au{i}'" + m.group(2)
-    return re.sub(r"<(m[a-z]+|none)((?=[\s/>]))", rep, xml)
+    # (also the semantics wrapper: generators such as LaTeXML put an id on it - it vanishes, the ids inside it must not)
+    return re.sub(r"<(m[a-z]+|none|semantics)((?=[\s/>]))", rep, xml)
 
 
 def mutants(expr, rng, limit=6):
